@@ -254,3 +254,72 @@ def build_forest(family, par, ch, skip=()):
 
 
 sys.setrecursionlimit(max(sys.getrecursionlimit(), 1000))
+
+
+# ---- adversarial class families (C17): user classes that define comparison / hashing / truth / container special methods --
+class Tripwire(Exception):
+    """Raised (and counted) when the library invokes a user-defined special method on a node."""
+
+
+TRIPS = [0]
+
+
+def _trip(name):
+    def method(self, *args, **kwargs):
+        TRIPS[0] += 1
+        raise Tripwire("special method %s invoked on a node" % name)
+
+    method.__name__ = name
+    return method
+
+
+def _const(name, value):
+    def method(self, *args, **kwargs):
+        return value
+
+    method.__name__ = name
+    return method
+
+
+def _weird_iter(self):
+    for c in self.children:
+        for g in c.children:
+            yield g
+            yield g
+
+
+BEHAVIOURS = {
+    "alwayseq": {"__eq__": _const("__eq__", True), "__ne__": _const("__ne__", False), "__hash__": _const("__hash__", 1)},
+    "nevereq": {"__eq__": _const("__eq__", False), "__ne__": _const("__ne__", True), "__hash__": _const("__hash__", 2)},
+    "falsy": {"__bool__": _const("__bool__", False)},
+    "zerolen": {"__len__": _const("__len__", 0)},
+    "unhashable": {"__eq__": lambda self, other: self is other, "__hash__": None},
+    "container": {"__iter__": _weird_iter, "__len__": _const("__len__", 7), "__contains__": _const("__contains__", True),
+                  "__getitem__": lambda self, key: self},
+    "ordering": {n: _const(n, True) for n in ("__lt__", "__le__", "__gt__", "__ge__")},
+    "tripwire": {n: _trip(n) for n in ("__eq__", "__ne__", "__lt__", "__le__", "__gt__", "__ge__", "__bool__", "__len__",
+                                        "__iter__", "__contains__", "__getitem__")},
+}
+BEHAVIOURS["tripwire"]["__hash__"] = _trip("__hash__")
+
+
+def _init(self, parent=None, children=None, **kwargs):
+    for key, value in kwargs.items():
+        setattr(self, key, value)
+    self.parent = parent
+    if children:
+        self.children = children
+
+
+ADV_FAMILIES = []
+for _b, _methods in BEHAVIOURS.items():
+    for _basename, _base, _strict in (("mixin", NodeMixin, True), ("light", LightNodeMixin, False)):
+        _ns = dict(_methods)
+        _ns["__init__"] = _init
+        if _base is LightNodeMixin:
+            _ns["__slots__"] = ("foo", "name", "lines")
+        _ns["__qualname__"] = "Adv_%s_%s" % (_b, _basename)
+        _cls = type("Adv_%s_%s" % (_b, _basename), (Hooks, _base), _ns)
+        globals()[_cls.__name__] = _cls
+        FAMILIES["adv:%s:%s" % (_b, _basename)] = dict(cls=_cls, strict=_strict, base=_basename)
+        ADV_FAMILIES.append("adv:%s:%s" % (_b, _basename))
